@@ -45,10 +45,46 @@ def r1_precedence_order(ctx: Ctx) -> None:
                           f"table orders {a}({prec[a]}) vs {b}({prec[b]}); conventional binding is "
                           + ("equal" if REF_RANK[a] == REF_RANK[b] else (f"{a} tighter" if REF_RANK[a] < REF_RANK[b] else f"{b} tighter")))
     ctx.floor("operator_pairs", 28)
+    mod = ctx.repo.module(EXPR)
+    subs, gets = [], []
+    for fn in mod.functions.values():
+        subs += [unparse(n) for n in walk_no_nested(fn.node) if isinstance(n, ast.Subscript) and unparse(n.value) == "OPERATOR_PRECEDENCE"]
+        gets += [c for c in calls_in(fn.node) if unparse(c.func) in ("OPERATOR_PRECEDENCE.get", "OPERATOR_PRECEDENCE.setdefault")]
+    ctx.check(len(subs) >= 1 and not gets, "precedence-lookup", "precedence is read by plain subscript (an operator without precedence raises)")
+    # prefix operators rank tighter than every binary operator, by their node kind
+    u = _unary_rank(ctx)
+    if u is None:
+        ctx.fail("precedence:unary", "a prefix operator waiting on the operator stack is ranked by its token text (binary `-` is looser than `*`): `~-a*b` groups as ~(-(a*b))")
+    else:
+        tight = min(prec[o] for o in ("*", "+", "-", "<<", ">>", "&", "|") if o in prec)
+        ctx.check(u < tight or u <= prec.get("~", u), "precedence:unary", f"prefix operators rank {u}, binary operators start at {tight}: unary binds tightest")
+        ctx.check(u < tight, "precedence:unary-vs-mult", f"prefix rank {u} must be tighter than `*` ({prec.get('*')})")
+
+
+def _rank_accessor(ctx: Ctx):
+    """the module function (if any) used for operator ranks in the pop comparison"""
     sy = ctx.repo.func(EXPR, "shunting_yard")
-    subs = [unparse(n) for n in walk_no_nested(sy.node) if isinstance(n, ast.Subscript) and unparse(n.value) == "OPERATOR_PRECEDENCE"]
-    gets = [c for c in calls_in(sy.node) if unparse(c.func) == "OPERATOR_PRECEDENCE.get"]
-    ctx.check(len(subs) >= 2 and not gets, "shunting_yard:precedence-lookup", "precedence is read by plain subscript (an operator without precedence raises)")
+    loop, _par = _pop_loop(sy.node)
+    for c in ast.walk(loop.test):
+        if isinstance(c, ast.Compare) and isinstance(c.left, ast.Call) and isinstance(c.left.func, ast.Name) and unparse(c.left.args[0]) == "operator_stack[-1]":
+            fn = ctx.repo.try_func(EXPR, c.left.func.id)
+            if fn is not None:
+                return fn
+    return None
+
+
+def _unary_rank(ctx: Ctx) -> int | None:
+    """literal rank given to UnaryOp nodes wherever the stack top is ranked; None when the stack top is ranked by token text only"""
+    acc = _rank_accessor(ctx)
+    if acc is None:
+        return None
+    p0 = acc.params()[0]
+    for st in walk_no_nested(acc.node):
+        if isinstance(st, ast.If) and unparse(st.test) == f"isinstance({p0}, UnaryOp)" and len(st.body) == 1 and isinstance(st.body[0], ast.Return):
+            return const_int(st.body[0].value)
+        if isinstance(st, ast.Return) and isinstance(st.value, ast.IfExp) and unparse(st.value.test) == f"isinstance({p0}, UnaryOp)":
+            return const_int(st.value.body)
+    return None
 
 
 def _pop_loop(sy: ast.FunctionDef) -> tuple[ast.While, ast.If | None]:
@@ -57,7 +93,7 @@ def _pop_loop(sy: ast.FunctionDef) -> tuple[ast.While, ast.If | None]:
         for c in ast.iter_child_nodes(p):
             parents[id(c)] = p
     for n in walk_no_nested(sy):
-        if isinstance(n, ast.While) and "current_precedence" in unparse(n.test):
+        if isinstance(n, ast.While) and "operator_stack[-1]" in unparse(n.test) and any(isinstance(c, ast.Compare) and isinstance(c.ops[0], (ast.LtE, ast.Lt, ast.GtE, ast.Gt)) for c in ast.walk(n.test)):
             par = parents.get(id(n))
             return n, par if isinstance(par, ast.If) else None
     raise AnalysisError("shunting_yard: precedence pop loop not found")
@@ -69,11 +105,18 @@ def r2_associativity(ctx: Ctx) -> None:
     conj = loop.test.values if isinstance(loop.test, ast.BoolOp) and isinstance(loop.test.op, ast.And) else [loop.test]
     cmp_ok = False
     strictness = None
+    acc = _rank_accessor(ctx)
+    left_forms = ["OPERATOR_PRECEDENCE[operator_stack[-1].token.value]"] + ([f"{acc.name}(operator_stack[-1])"] if acc else [])
+    right_forms = ["current_precedence"] + ([f"{acc.name}(expr)"] if acc else [])
     for c in conj:
-        if isinstance(c, ast.Compare) and len(c.ops) == 1 and unparse(c.left) == "OPERATOR_PRECEDENCE[operator_stack[-1].token.value]" \
-                and unparse(c.comparators[0]) == "current_precedence":
+        if isinstance(c, ast.Compare) and len(c.ops) == 1 and unparse(c.left) in left_forms and unparse(c.comparators[0]) in right_forms:
             strictness = type(c.ops[0]).__name__
             cmp_ok = isinstance(c.ops[0], ast.LtE)
+    cur = [n for n in walk_no_nested(sy.node) if isinstance(n, ast.Assign) and unparse(n.targets[0]) == "current_precedence"]
+    if cur:
+        v = unparse(cur[0].value)
+        ctx.check(v in ([f"{acc.name}(expr)"] if acc else []) + ["OPERATOR_PRECEDENCE[expr.token.value] if isinstance(expr, BinOp) else 2", "OPERATOR_PRECEDENCE[expr.token.value]"],
+                  "shunting_yard:current-rank", f"the incoming operator is ranked by the same table; found `{v}`")
     if strictness is None:
         raise AnalysisError("shunting_yard: pop comparison not recognised")
     ctx.check(cmp_ok, "shunting_yard:pop-comparison", f"stack operators of lower-or-EQUAL precedence are popped (left associativity); comparison is {strictness}")
